@@ -50,6 +50,18 @@ claimed["C15"]=dict(
    text="kern.Read: every format-0 pair updates the kerning value by the rule the coverage bits select (minimum 0x02, override 0x08, accumulate) - proved as a fold over the pairs of each subtable (recursive spec), no panic, terminates, reader faults returned; FindLookups returns only indices below len(LookupList) and never panics. Cmap selection, GSUB/GPOS composition and the ordering/duplicate-freedom of FindLookups (sort semantics) are not yet decided.",
    note="Assumes x/text/language Matcher.Match returns an index into its tag list; sort.Slice only permutes.",
    ref="DESIGN.md section 5 (C15)")
+claimed["C10"]=dict(
+   text="Subsetter kernels: the bijection between the glyph list and the old->new index map is an invariant of getNewGid and SubsetGlyf (this is where the component re-pointing defect F7 was found and fixed); SubsetGlyf keeps the requested prefix of the glyph list and transfers widths and names of glyph i from original glyph glyphs[i]; FixComponents returns a fresh glyph with every component index mapped through the table and flags/arguments unchanged; SubsetCMap maps a character iff it mapped to a retained glyph, to that glyph's new index (formats 4 and 12, every map iteration order); SubsetCFF transfers glyphs, CIDs, re-keys the built-in encoding, and keeps private-dict indices in range. pop never panics on a non-empty map.",
+   note="Free (unchecked) invariant len(s.glyphs) < 65536 in SubsetGlyf (pigeonhole argument, not expressible). Not decided: closure of the glyph list under components as a postcondition, equality of font matrices under the new index, GSUB/GPOS rule closure, Font.Subset's cmap loop (reads subtables from the empty result table - seen by inspection, not decided by any contract), 'can be written and read back'.",
+   ref="DESIGN.md section 5 (C10)")
+claimed["C16"]=dict(
+   text="Sequential frame (write-set) obligations, the premise of the standard race-freedom argument: every heap store of the listed operations goes to memory allocated by the call or named in its modifies clause. Proved: MakeGlyphNames, NumGlyphs, FixComponents, Components, Glyphs.Encode, encodeLen, encodeLoca, decodeLoca, cmap.Decode, decodeFormat12, coverage encInfo/Encode, Keep, FindLookups, SubsetCMap, SubsetCFF write nothing that existed before the call and return fresh results; (*Glyph).append writes only its buffer argument; header.Write writes only head[8:12] and the writer; Context.Apply writes only its receiver and the glyph sequence. Two operations with disjoint write sets that only read shared state do not conflict under the Go memory model; the interleavings themselves are not explored.",
+   note="Frame-only contract for MakeGlyphNames (panics/termination not claimed there). Callees without contracts are havoc (any write) and make the caller's frame obligation fail, so every callee on these paths has a checked or assumed frame; assumed frames: cmap GetBest/Get/Lookup/CodeRange, Outlines.NumGlyphs, stdlib. Font.Write, Subset as a whole, Layouter, Explain* are not under contract.",
+   ref="DESIGN.md section 5 (C16)")
+claimed["C20"]=dict(
+   text="Uniqueness kernels: makeVariant returns a name that was not in use and marks exactly that name as used; cff.(*Outlines).makeNames (CID-keyed to simple conversion) leaves every glyph with a non-empty name, names pairwise distinct, glyph 0 named .notdef, for every input font with distinct non-nil glyphs; MakeGlyphNames returns a freshly allocated list (frame). Termination of the unbounded name searches is not claimed.",
+   note="Assumes names.IsValid(\".notdef\") and fmt.Sprintf results at least as long as the literal part of the format. MakeGlyphNames' uniqueness/completeness invariant and 'existing names kept' (F17) are not decided; PostScriptName not under contract.",
+   ref="DESIGN.md section 5 (C20)")
 na_reasons = {}
 m={"version":1,
  "setup_cmd":"cd /verif/engine && GOFLAGS=-mod=vendor GOPROXY=off GOSUMDB=off GOTOOLCHAIN=local go build -o ../bin/gvc ./cmd/gvc",
